@@ -23,7 +23,7 @@ _W = None
 
 
 def cases(tier):
-    return 700 if tier == "quick" else 30000
+    return 6000 if tier == "quick" else 120000
 
 
 def floors(tier):
